@@ -235,12 +235,15 @@ def main():
         def requestAvatar(self, avatarId, mind, *interfaces):
             if avatarId is checkers.ANONYMOUS:
                 avatar = shell_anon(filepath.FilePath(cfg["anon_root"]))
+            elif avatarId in (cfg["user2"], cfg["user2"].encode("ascii")):
+                avatar = shell_rw(filepath.FilePath(cfg["sparse_root"]))
             else:
                 avatar = shell_rw(filepath.FilePath(cfg["rw_root"]))
             return ftp.IFTPShell, avatar, lambda: None
 
     db = checkers.InMemoryUsernamePasswordDatabaseDontUse()
     db.addUser(cfg["user"], cfg["password"])
+    db.addUser(cfg["user2"], cfg["password2"])
     p = portal.Portal(Realm(), [db, checkers.AllowAnonymousAccess()])
     stop = ("XSTOP " + cfg["token"]).encode("ascii")
 
